@@ -3,6 +3,7 @@
 Oracle: reference model per entity kind (conventions calibrated on the pinned tree, DESIGN 6/C18);
 a following table that uses the type must report the (qualified) type name verbatim.
 """
+import json
 import re
 from vf.gen import schema as S
 from vf.gen.render import finish_script, render
@@ -254,7 +255,7 @@ def build_case(rng, ekind, gen, **kw):
     if kw.get("second") or (not kw and rng.random() < 0.35):
         # a second (third) declaration in the same script: every entity keeps its own values
         for _ in range(rng.randint(1, 2)):
-            k2 = rng.choice([kind, kind, "domain", "enum", "tablespace", "schema"])
+            k2 = rng.choice([kind, kind, "domain", "enum", "tablespace", "schema", "database", "tablespace"])
             d2, e2, kf2, _t2 = GENS[k2](rng)
             if kf2 is None:
                 stmts.append(d2)
@@ -289,6 +290,22 @@ def check_case(ctx, case):
         return
     ents = entities(r[1])
     plan = case["plan"]
+    # every declared entity exactly once also in the grouped result, and nothing accumulates when the same object is run again
+    n = ctx.obs["cases_seen"] = ctx.obs["cases_seen"] + 1
+    if n % 3 == 0 and kf is None:
+        from vf.run import run_history
+        h = run_history(case["ddl"], None, [{}, {"group_by_type": True}, {}])
+        ctx.evaluated(3)
+        ctx.obs["same_object_histories"] += 1
+        if h[0][0] != "ok" or h[2][0] != "ok" or h[0][1] != r[1] or h[2][1] != r[1]:
+            ctx.violation("entities_change_when_run_again", case, {"first": short(h[0], 200), "third": short(h[2], 200), "fresh_object": short(r[1], 200)})
+        elif h[1][0] != "ok" or not isinstance(h[1][1], dict):
+            ctx.violation("grouped_result_not_available", case, {"observed": short(h[1], 200)})
+        else:
+            grouped = [e for k, v in h[1][1].items() if k != "comments" for e in v]
+            a, b = sorted(json.dumps(e, sort_keys=True, default=str) for e in grouped), sorted(json.dumps(e, sort_keys=True, default=str) for e in ents)
+            if a != b:
+                ctx.violation("grouped_entities_differ_from_flat", case, {"grouped": short(h[1][1], 300), "flat": short(ents, 300)})
     if len(ents) != len(plan):
         ctx.violation("entity_count:" + case["entity_kind"], case, {"observed": len(ents), "expected": len(plan), "result": short(ents, 400)},
                       kf=kf if kf == "C18:domain-without-size" else None)
